@@ -19,8 +19,8 @@ PROPS["C01"] = {
     "tie": ["NsyncVerif.Proofs.TieConsts"],
     "oracles": {"exclusion", "exclusion-ann", "panic"},
     "plan": {
-        "quick": [("core", 60, 6), ("cv", 50, 6), ("cv_raw", 30, 6), ("muwait", 50, 6), ("waitn_cv", 30, 6), ("debug", 40, 6), ("cv_rsignal", 60, 8)],
-        "thorough": [("cv_rsignal", 600, 16), ("core", 600, 12), ("cv", 500, 12), ("cv_raw", 300, 12), ("muwait", 500, 12), ("waitn_cv", 300, 12), ("debug", 400, 12), ("mixed", 500, 12)],
+        "quick": [("core", 60, 6), ("cv", 50, 6), ("cv_raw", 30, 6), ("muwait", 50, 6), ("waitn_cv", 30, 6), ("debug", 40, 6), ("cv_rsignal", 60, 8), ("waitn", 80, 8), ("waitn_rep", 60, 8), ("cancel_only", 40, 6)],
+        "thorough": [("cv_rsignal", 600, 16), ("core", 600, 12), ("cv", 500, 12), ("cv_raw", 300, 12), ("muwait", 500, 12), ("waitn_cv", 300, 12), ("debug", 400, 12), ("mixed", 500, 12), ("waitn", 800, 12), ("waitn_rep", 600, 12), ("cancel_only", 400, 12)],
     },
     "level_text": "Kernel-checked theorems C01_exclusion / C01_reader_excludes_writer / C01_exclusion_ann / C01_word_agrees / C01_store_sound over the MuX model (one step per atomic operation on the mutex word, any number of threads, all interleavings, all acquisition paths incl. timeout/cancel re-acquisition and the plain release-stores); tied to the code by lockstep replay of harness executions of the real sources through the MuX acceptor, with exclusion oracles on the implementation side",
     "level_note": "Proved for the model; model=code is established on the executions replayed (sampled, coverage in evidence). Hint bits are uninterpreted in this layer. SC interleavings at atomic-operation granularity. Client contract assumed (acceptor rejects violations).",
@@ -168,7 +168,7 @@ PROPS["C10"] = {
                  "C10_wait_zero", "C10_wait_nonzero", "C10_release_all", "C10_release_all_unlock", "C10_released_posted", "C10_no_lost_wakeup",
                  "C10_no_block_after_zero", "C10_wait_at_zero", "C10_record_lifetime", "C10_record_lifetime_ret"]],
     "layers": ["counter", "mux", "vc"],
-    "oracles": {"early-timeout", "stuck", "panic", "crash", "counter-value", "vc"},
+    "oracles": {"early-timeout", "stuck", "panic", "crash", "counter-value", "ctr-linearizable", "vc"},
     "plan": {"quick": [("ctr", 200, 8)], "thorough": [("ctr", 2000, 16)]},
     "level_text": "Kernel-checked theorems over the Counter model (counter.c and the nsync_wait_n path of nsync_counter_wait statement by statement, counter mutex abstract, any number of threads and deltas): the value history is exactly the prefix sums of the deltas whose CAS succeeded and every add returns the value its own CAS produced (linearizable); value/add(0)/wait only report values the counter held; wait returns 0 only if 0 was held and non-zero only with the deadline expired; when the value is 0 and the lock is free the waiter queue is empty and every record that was queued has waiting cleared and its semaphore posted; a sleeper is never lost; after zero (with a wait registered) no wait reaches the semaphore. Tied to the code by lockstep replay of harness executions of the real counter.c/wait.c through the Counter acceptor.",
     "level_note": "counter_mu is an abstract lock in this layer (justified by C01, whose acceptor replays the same logs). uint32 wrap-around modelled; the library's ASSERTs (no decrement below zero, no increment from zero after a wait) are the API contract. Waits through nsync_wait_n with several objects are C11's subject.",
@@ -192,8 +192,8 @@ PROPS["C04"] = {
                  "C04_signal", "C04_broadcast", "C04_broadcast_unlinks_all", "C04_no_lost_wake", "C04_f3_schedule_fixed", "C04_f3_old_behaviour_rejected"]],
     "layers": ["cv", "mux"],
     "oracles": {"swallowed-wakeup", "dead-object", "stuck", "steplimit", "early-timeout", "bad-cancel", "bad-result", "panic", "crash"},
-    "plan": {"quick": [("cv", 120, 8), ("cv_raw", 60, 8), ("cv_rsignal", 60, 8), ("waitn_cv", 80, 8)],
-             "thorough": [("cv", 1200, 16), ("cv_raw", 600, 16), ("cv_rsignal", 600, 16), ("waitn_cv", 800, 16)]},
+    "plan": {"quick": [("cv", 120, 8), ("cv_raw", 60, 8), ("cv_rsignal", 60, 8), ("waitn_cv", 80, 8), ("cv_rwr", 60, 6)],
+             "thorough": [("cv", 1200, 16), ("cv_raw", 600, 16), ("cv_rsignal", 600, 16), ("waitn_cv", 800, 16), ("cv_rwr", 600, 12)]},
     "harness_args": ["checkplain=1"],
     "level_text": "Kernel-checked theorems over the CvFix model (cv.c — with the repair of defect F3 — and sem_wait.c statement by statement: cv word, queue, pooled waiter records with remove_count and bare nsync_waiter_s records of nsync_wait_n, private to-wake lists, transfer to the mutex queue; any number of threads; both semaphore flavours): queue/non-empty-bit invariant, spinlock exclusion, enqueue-before-release (wait is atomic w.r.t. wakers), signal unlinks the first waiter and, if it is a reader, every reader plus at most one other, broadcast unlinks every waiter enqueued before its first load, an unlinked record is woken (flag cleared and semaphore posted) or its waker is still in flight (no lost wake-up), every wait instance is unlinked at most once, by a waker xor by itself — for ALL record kinds (C04_unlink_once) —, a cv wait returns non-zero only if it unlinked itself, and for nsync_wait_n cv_dequeue reports 'still enqueued' exactly when the record was unlinked by its owner (a waker-unlinked record is reported as ready: C04_outcome). Tied to the code by lockstep replay of the cv / cv_raw / cv_rsignal / waitn_cv families (incl. cancellable waits) through the CvFix acceptor, with the swallowed-wake-up and dead-object oracles on the implementation side.",
     "level_note": "On the pinned tree C04_unlink_once / C04_outcome were false for nsync_wait_n records (defect F3, now fixed in /repo: the old Cv model with the refutation is kept in the library as Props/C04.lean, the F3 schedule is a corpus regression). Transferred waiters are handed to the mutex queue (C02). The mutex is abstract in this layer. Fair termination is a paper step.",
